@@ -191,6 +191,15 @@ def digest(o):
     return h.hexdigest()
 
 
+def scribble(o):
+    """overwrite every writable array of a result in place"""
+    if isinstance(o, (tuple, list)):
+        for q in o:
+            scribble(q)
+    elif isinstance(o, np.ndarray) and o.flags.writeable and o.size and o.dtype.kind in 'fiu':
+        o[...] = 77
+
+
 def normo(v):
     if isinstance(v, dict):
         return {k: normo(x) for k, x in v.items()}
@@ -211,7 +220,9 @@ def one_call(emd, ep, l, ro, opts, D):
     untouched = all(a.tobytes() == b for a, b in zip(arrays, before)) and normo(opts) == normo(obefore)
     if isinstance(out, str):
         return {'outcome': 'timeout' if out == 'raise:Timeout' else 'raised', 'exc': out, 'untouched': untouched, 'digest': ''}
-    return {'outcome': 'returned', 'exc': '', 'untouched': untouched, 'digest': digest(out)}
+    dg = digest(out)
+    scribble(out)       # the caller owns what it was given back: overwriting it must not influence any later call
+    return {'outcome': 'returned', 'exc': '', 'untouched': untouched, 'digest': dg}
 
 
 def edit_another_config(emd):
